@@ -146,6 +146,8 @@ theorem ensurePath_eqv {e : Bool} {o : Opts} {r₁ r₂ : Root} {path : Bytes}
   · simp only [mapO, hr]
   · simp only [mapO, hr]
   · rename_i parts _ _
+    split
+    · simp only [mapO, hr]
     have := ensure_eqv o parts r₁.selfCR r₁.self r₂.self r₁.con r₂.con hs hc k₁.1.2 k₂.1.2
     rw [← hcr]
     cases h1 : ensure o r₁.selfCR r₁.self r₁.con parts with
